@@ -5,7 +5,9 @@
 Writes /tmp/mut/verify_report.json; copies confirmed ones to /verif/seeded/<id>/."""
 import glob, json, os, shutil, subprocess, sys
 WT = "/tmp/mut/verify"
-OUT = "/tmp/mut/out"
+ROUND = int(os.environ.get("ROUND", "1"))
+OUT = "/tmp/mut/out" + ("" if ROUND == 1 else str(ROUND))
+REPORT = "/tmp/mut/verify_report%s.json" % ("" if ROUND == 1 else str(ROUND))
 ENV = dict(os.environ, CARGO_NET_OFFLINE="true")
 
 def sh(cmd, cwd=WT, timeout=1200):
@@ -22,13 +24,19 @@ def run_demo(files):
     log = ""
     ok = True
     ran = False
+    runmd = ""
+    for f in glob.glob(os.path.dirname(files[0]) + "/RUN.md") if files else []:
+        runmd = open(f).read()
+    cli = "slinky-cli/tests" in runmd
+    crate = "slinky-cli" if cli else "slinky"
+    os.makedirs(os.path.join(WT, crate, "tests"), exist_ok=True)
     for f in files:
         if f.endswith((".rs", ".yaml")):
-            shutil.copy(f, os.path.join(WT, "slinky/tests", os.path.basename(f)))
+            shutil.copy(f, os.path.join(WT, crate, "tests", os.path.basename(f)))
     for f in rs:
         ran = True
         name = os.path.basename(f)[:-3]
-        rc, out = sh("cargo test --offline -p slinky --test %s 2>&1 | tail -25" % name)
+        rc, out = sh("cargo test --offline -p %s --test %s 2>&1 | tail -25" % (crate, name))
         passed = "test result: ok" in out and "FAILED" not in out
         log += out[-1500:]
         ok = ok and passed
@@ -52,7 +60,7 @@ def main():
         subprocess.run("git -C %s checkout -q --detach $(git -C /repo rev-parse HEAD)" % WT, shell=True)
     report = {}
     for d in sorted(glob.glob(OUT + "/C*/[12]")):
-        mid = d.split("/")[-2] + "-" + d.split("/")[-1]
+        mid = d.split("/")[-2] + "-" + str(int(d.split("/")[-1]) + 2 * (ROUND - 1))
         if only and mid not in only:
             continue
         patch = os.path.join(d, "patch.diff")
@@ -91,7 +99,7 @@ def main():
         r["confirmed"] = bool(r["suite_ok"] and r["demo_fails_with_patch"] and r["demo_passes_without_patch"])
         report[mid] = r
         print(mid, "CONFIRMED" if r["confirmed"] else "NOT-CONFIRMED", {k: r[k] for k in ("suite_ok", "demo_fails_with_patch", "demo_passes_without_patch")}); sys.stdout.flush()
-        json.dump(report, open("/tmp/mut/verify_report.json", "w"), indent=1)
-    json.dump(report, open("/tmp/mut/verify_report.json", "w"), indent=1)
+        json.dump(report, open(REPORT, "w"), indent=1)
+    json.dump(report, open(REPORT, "w"), indent=1)
 
 main()
